@@ -4,7 +4,9 @@
    (19 5 ty A B C s) -((A*B+C)*s) on Matrix<user type> ; (19 6 ty X Y s) ((x+y)*s).y on
    Tensor<user type> ; (19 7 ty n) Trace / Record constants ; (19 8 ty op (an ad) (bn bd)) Trace
    operators, four forms + both negations ; (19 9 ty op ka a kb b) Record operators, all forms,
-   ka kb = 0 constant / 1 variable on tape A / 2 variable on tape B.
+   ka kb = 0 constant / 1 variable on tape A / 2 variable on tape B ;
+   (19 10 ty p r (x ..) (a b c d)) f1_score / mean / variance / 2x2 determinant of linear_algebra at
+   the user type (and, at build time, every linear_algebra routine instantiated at the non-Copy Rat).
    tag: 0 u8 1 i8 2 u16 3 i16 4 u32 5 i32 6 u64 7 i64 8 u128 9 i128 10 usize 11 isize 12 f32
    13 f64 ; w: 0 plain 1 Wrapping 2 Saturating ; ty: 0 Rat 1 Fp 2 Wrapping<i64>."""
 from tools.vlib import sx, MAXU
@@ -114,6 +116,20 @@ def gen(tier, rng):
             for _ in range(200 if quick else 5000):
                 n = rng.choice([rng.randrange(MAXU + 1), rng.randrange(2 ** 33), 2 ** rng.randrange(64) + rng.randrange(-3, 4) % 7])
                 yield sx([19, 1, w, tag, min(n, MAXU)])
+    # ---- floats: counts next to the rounding midpoints of f32 / f64 (a conversion that rounds
+    #      twice, e.g. through f64, or truncates differs from the nearest value only there)
+    for tag, mant in ((12, 23), (13, 52)):
+        for k in range(mant + 2, 64):
+            ulp = 1 << (k - mant)            # spacing of the floats in [2^k, 2^(k+1))
+            half = ulp >> 1
+            ms = [0, 1, 2, 3, (1 << mant) - 1, (1 << mant) - 2] + [rng.randrange(1 << mant) for _ in range(6 if quick else 60)]
+            for m in ms:
+                base = (1 << k) + m * ulp
+                for d in (-2, -1, 0, 1, 2, -(half >> 30) - 1, (half >> 30) + 1, half >> 12, -(half >> 12)):
+                    n = base + half + d
+                    if 0 <= n <= MAXU:
+                        for w in range(3):
+                            yield sx([19, 1, w, tag, n])
     # ---- zero / one
     for tag in range(14):
         for w in range(3):
@@ -168,6 +184,14 @@ def gen(tier, rng):
     for ty in range(3):
         for n in bc + [rng.randrange(MAXU + 1) for _ in range(50)]:
             yield sx([19, 7, ty, n])
+    # ---- the generic routines of linear_algebra directly at the user types
+    for _ in range(1500 if quick else 20000):
+        ty = rng.randrange(3)
+        p_, r_ = value(ty, rng), value(ty, rng)
+        if ty == 2:
+            while (p_ + r_) % 2 ** 64 == 0:
+                r_ = value(ty, rng)
+        yield sx([19, 10, ty, p_, r_, values(ty, rng.randrange(1, 7), rng), values(ty, 4, rng)])
     # ---- Trace / Record operators through every operand form, at Rat, Fp and Wrapping<i64>
     def divisor(ty):
         # Wrapping<i64> panics on a zero divisor; the derivative divides by y * y as well
